@@ -85,7 +85,7 @@ def run(ctx):
     rng = ctx.rng
     ctx.extra["rule"] = ("seeded models (Linear / Conv2d / LayerNorm stacks), weights in all six qtypes (per-axis and automatically grouped), activations None/qint8/qfloat8 (calibrated), dtype float32/float16/bfloat16, "
                          "frozen or not, serializer pickle / weights_only / safetensors, target same-quantized (also frozen beforehand, or loaded twice) / default-quantized / requantize(), one or two save-load cycles. distinct = the configuration tuple; non-trivial = all")
-    n = 120 if not ctx.thorough else 1200
+    n = 120 if not ctx.thorough else 4000
     lines, expect = [], []
     for _ in range(n):
         dt = rng.choice([torch.float32, torch.float16, torch.bfloat16])
